@@ -1,4 +1,4 @@
-import Isotp.Proofs.DuplexLive3
+import Isotp.Proofs.DuplexLive7
 /-
   C10, liveness half — "When both peers send multi-frame messages to each other at the same time … both directions
   deliver all payloads intact, in order and exactly once, with no error reported. No interleaving reaches a state in
@@ -133,7 +133,317 @@ theorem duplex_of_abstract (ca cb : Cfg) (aa ab : Addr) (idA idB : Nat) (p q : B
   obtain ⟨n', hr, hf⟩ := absDone_spec (absDone_mono habs hN)
   exact complete_of_abs SA idB kCfB kFcB hA hB haccA haccB N n' hr hf
 
+/-! ## the theorems -/
+
+theorem parOk (ca cb : Cfg) (aa ab : Addr) (p q : Bytes) (k1 k2 k3 k4 : Nat) (hva : ca.valid = true)
+    (hvb : cb.valid = true) : ParOk (parA ca cb aa ab p q k1 k2) (parB ca cb aa ab p q k3 k4) :=
+  ⟨rfl, rfl, rfl, rfl, nFrames_pos ca aa p hva, nFrames_pos cb ab q hvb⟩
+
+/-- the number of rounds within which both transfers complete (an upper bound), and which the timeouts have to cover
+    in `duplex_completes_partial` -/
+def roundsBound (ca cb : Cfg) (aa ab : Addr) (p q : Bytes) : Nat :=
+  4 * (nFrames (TxCfg.of ca aa) p + nFrames (TxCfg.of cb ab) q) + 2
+
+/-- **C10 (liveness), general in everything but the timeout margins.** ANY blocksizes (0..255), ANY valid STmin bytes
+    (with or without `override_receiver_stmin`), any addressing modes, tx_data_length / padding, Single Frame or
+    segmented messages in either direction: if the four timeouts cover `roundsBound = 4·(nA + nB) + 2` ticks (instead
+    of the 3 resp. 2 ticks of `C10live_statement`), then for every `N ≥ roundsBound`, after `A.send(p)`, `B.send(q)`
+    and `N` canonical rounds B's rx queue is `[p]`, A's is `[q]`, both requests completed with success, both layers
+    idle in both directions, nothing queued or pending, links and inboxes empty, no error event on either side.
+    In particular no duplex interleaving of this schedule deadlocks. -/
+theorem duplex_completes_partial (ca cb : Cfg) (aa ab : Addr) (idA idB : Nat) (p q : Bytes) (dt : Nat)
+    (hD : Duplex ca cb aa ab p q dt (roundsBound ca cb aa ab p q) (roundsBound ca cb aa ab p q)
+      (roundsBound ca cb aa ab p q) (roundsBound ca cb aa ab p q))
+    (haccA : ((State.init ca aa).send { id := idA, size := p.length, src := p }).2 = none)
+    (haccB : ((State.init cb ab).send { id := idB, size := q.length, src := q }).2 = none)
+    (N : Nat) (hN : roundsBound ca cb aa ab p q ≤ N) : CompletesIn ca cb aa ab idA p idB q dt N :=
+  duplex_of_abstract ca cb aa ab idA idB p q dt _ _ _ _ hD haccA haccB (roundsBound ca cb aa ab p q)
+    (absDone_general (parOk ca cb aa ab p q _ _ _ _ hD.va hD.vb) (Nat.le_refl _) (Nat.le_refl _) (Nat.le_refl _)
+      (Nat.le_refl _)) N hN
+
+/-- **C10 (liveness) with the sharp timeouts, small parameters.** With N_Cr covering 3 ticks and N_Bs 2 ticks on both
+    sides (`C10live_statement`), for all payloads of 1..5 frames in each direction and blocksizes 0..3 on each side
+    (any STmin, addressing, tx_data_length, padding): both transfers complete within `2·(nA + nB) + 2` rounds. -/
+theorem duplex_completes_small (ca cb : Cfg) (aa ab : Addr) (idA idB : Nat) (p q : Bytes) (dt : Nat)
+    (hD : Duplex ca cb aa ab p q dt 3 2 3 2)
+    (haccA : ((State.init ca aa).send { id := idA, size := p.length, src := p }).2 = none)
+    (haccB : ((State.init cb ab).send { id := idB, size := q.length, src := q }).2 = none)
+    (hnA : nFrames (TxCfg.of ca aa) p ≤ 5) (hnB : nFrames (TxCfg.of cb ab) q ≤ 5)
+    (hbA : ca.blocksize ≤ 3) (hbB : cb.blocksize ≤ 3)
+    (N : Nat) (hN : 2 * (nFrames (TxCfg.of ca aa) p + nFrames (TxCfg.of cb ab) q) + 2 ≤ N) :
+    CompletesIn ca cb aa ab idA p idB q dt N :=
+  duplex_of_abstract ca cb aa ab idA idB p q dt 3 2 3 2 hD haccA haccB _
+    (absDone_small _ _ _ _ _ _ (nFrames_pos ca aa p hD.va) hnA (nFrames_pos cb ab q hD.vb) hnB hbA hbB) N hN
+
+/-- **C10 (liveness), blocksize 0 and STmin 0 on both sides, any two segmented messages** (any addressing,
+    tx_data_length, padding): the exchange takes exactly THREE rounds — First Frames and B's Flow Control; A's Flow
+    Control and all Consecutive Frames of both; the Consecutive Frames each side left in its inbox — with N_Cr covering
+    one tick at A and TWO ticks at B (A runs first in the round), N_Bs one tick. -/
+theorem duplex_completes_bs0 (ca cb : Cfg) (aa ab : Addr) (idA idB : Nat) (p q : Bytes) (dt : Nat)
+    (hD : Duplex ca cb aa ab p q dt 1 1 2 1)
+    (hbA : ca.blocksize = 0) (hbB : cb.blocksize = 0) (hzA : effOf ca cb = 0) (hzB : effOf cb ca = 0)
+    (hffA : NeedsFF (TxCfg.of ca aa) p.length) (hffB : NeedsFF (TxCfg.of cb ab) q.length)
+    (haccA : ((State.init ca aa).send { id := idA, size := p.length, src := p }).2 = none)
+    (haccB : ((State.init cb ab).send { id := idB, size := q.length, src := q }).2 = none)
+    (N : Nat) (hN : 3 ≤ N) : CompletesIn ca cb aa ab idA p idB q dt N := by
+  have hnA := two_le_nFrames _ (valid_of ca aa hD.va) p hffA
+  have hnB := two_le_nFrames _ (valid_of cb ab hD.vb) q hffB
+  have eA : parA ca cb aa ab p q 1 1 = bs0A (nFrames (TxCfg.of ca aa) p) (nFrames (TxCfg.of cb ab) q) 1 1 := by
+    simp [parA, bs0A, hbA, hbB, hzA]
+  have eB : parB ca cb aa ab p q 2 1 = bs0B (nFrames (TxCfg.of ca aa) p) (nFrames (TxCfg.of cb ab) q) 2 1 := by
+    simp [parB, bs0B, hbA, hbB, hzB]
+  refine duplex_of_abstract ca cb aa ab idA idB p q dt 1 1 2 1 hD haccA haccB 3 ?_ N hN
+  rw [eA, eB]
+  exact absDone_bs0 _ _ 1 1 2 1 hnA hnB (Nat.le_refl _) (Nat.le_refl _) (Nat.le_refl _) (Nat.le_refl _)
+
+/-- … and not before: after two rounds neither payload has been delivered yet -/
+theorem bs0_not_before (ca cb : Cfg) (aa ab : Addr) (idA idB : Nat) (p q : Bytes) (dt : Nat)
+    (hD : Duplex ca cb aa ab p q dt 1 1 2 1)
+    (hbA : ca.blocksize = 0) (hbB : cb.blocksize = 0) (hzA : effOf ca cb = 0) (hzB : effOf cb ca = 0)
+    (hffA : NeedsFF (TxCfg.of ca aa) p.length) (hffB : NeedsFF (TxCfg.of cb ab) q.length)
+    (haccA : ((State.init ca aa).send { id := idA, size := p.length, src := p }).2 = none)
+    (haccB : ((State.init cb ab).send { id := idB, size := q.length, src := q }).2 = none) :
+    ∃ d0 d evA evB a b, startNet2 ca cb aa ab idA p idB q = some (d0, none, none) ∧
+      canonRounds dt 2 d0 = some (d, evA, evB) ∧ d.layers = #[a, b] ∧ a.rxQueue = [] ∧ b.rxQueue = [] ∧
+      a.rxState = .waitCf ∧ b.rxState = .waitCf := by
+  have hnA := two_le_nFrames _ (valid_of ca aa hD.va) p hffA
+  have hnB := two_le_nFrames _ (valid_of cb ab hD.vb) q hffB
+  let SA : Side := { c := ca, a := aa, c' := cb, a' := ab, id := idA, p := p, p' := q, dt := dt, kCf := 1, kFc := 1 }
+  have hA : SideOk SA :=
+    ⟨hD.va, hD.vb, hD.listenA, hD.rlA, hD.wfA, hD.wfB, hD.mirBA, hD.stminB, hD.p1, hD.p32, hD.q1, hD.q32, hD.qmax,
+     hD.sepAB, hD.kFcA1, hD.kCfA1, hD.tFcA, hD.tCfA⟩
+  have hB : SideOk (sideB SA idB 2 1) :=
+    ⟨hD.vb, hD.va, hD.listenB, hD.rlB, hD.wfB, hD.wfA, hD.mirAB, hD.stminA, hD.q1, hD.q32, hD.p1, hD.p32, hD.pmax,
+     hD.sepBA, hD.kFcB1, hD.kCfB1, hD.tFcB, hD.tCfB⟩
+  have eA : SA.par = bs0A (nFrames (TxCfg.of ca aa) p) (nFrames (TxCfg.of cb ab) q) 1 1 := by
+    simp [Side.par, SA, bs0A, hbA, hbB, hzA]
+  have eB : (sideB SA idB 2 1).par = bs0B (nFrames (TxCfg.of ca aa) p) (nFrames (TxCfg.of cb ab) q) 2 1 := by
+    simp [Side.par, Side.swap, SA, bs0B, hbA, hbB, hzB]
+  have hr : absRounds SA.par (sideB SA idB 2 1).par 2 {} =
+      some (net2 (nFrames (TxCfg.of ca aa) p) (nFrames (TxCfg.of cb ab) q)) := by
+    rw [eA, eB]
+    simp only [absRounds, round1 _ _ 1 1 2 1 hnA hnB, round2 _ _ 1 1 2 1 hnA hnB (Nat.le_refl _) (by omega) (Nat.le_refl _)]
+  obtain ⟨hl, -⟩ := rounds_sim hA hB 2 {} _ _ (netRep_init SA idB 2 1 hA hB) hr
+  have ha := hl.a.rx
+  have hb := hl.b.rx
+  refine ⟨_, _, _, _, _, _, startNet2_eq ca cb aa ab idA p idB q haccA haccB, canonRounds_toNet dt 2 _, rfl,
+    ha.2.2.2.2.2.2.2.1, hb.2.2.2.2.2.2.2.1, ha.1, hb.1⟩
+
+/-- **No deadlock on this schedule.** Under the hypotheses of `duplex_completes_partial`, after any number `i` of
+    rounds the network of the driver is described (`NetRep`: field by field, `Rep`) by the state `ni` of the abstract
+    duplex machine after `i` rounds, the next abstract round succeeds and does not increase the potential
+    `netM` = Σ over both directions of 3·(frames still to send) + (frames still to receive) + 2·[waiting for a Flow
+    Control] + [request still queued] — and strictly decreases it unless both transfers are complete. -/
+theorem progress_each_round (ca cb : Cfg) (aa ab : Addr) (idA idB : Nat) (p q : Bytes) (dt : Nat)
+    (hD : Duplex ca cb aa ab p q dt (roundsBound ca cb aa ab p q) (roundsBound ca cb aa ab p q)
+      (roundsBound ca cb aa ab p q) (roundsBound ca cb aa ab p q))
+    (haccA : ((State.init ca aa).send { id := idA, size := p.length, src := p }).2 = none)
+    (haccB : ((State.init cb ab).send { id := idB, size := q.length, src := q }).2 = none) (i : Nat) :
+    ∃ d0 d evA evB qi ni n', startNet2 ca cb aa ab idA p idB q = some (d0, none, none) ∧
+      canonRounds dt i d0 = some (d, evA, evB) ∧ d = qi.toNet ∧
+      absRounds (parA ca cb aa ab p q (roundsBound ca cb aa ab p q) (roundsBound ca cb aa ab p q))
+        (parB ca cb aa ab p q (roundsBound ca cb aa ab p q) (roundsBound ca cb aa ab p q)) i {} = some ni ∧
+      NetRep { c := ca, a := aa, c' := cb, a' := ab, id := idA, p := p, p' := q, dt := dt,
+               kCf := roundsBound ca cb aa ab p q, kFc := roundsBound ca cb aa ab p q }
+        idB (roundsBound ca cb aa ab p q) (roundsBound ca cb aa ab p q) ni qi ∧
+      absRound (parA ca cb aa ab p q (roundsBound ca cb aa ab p q) (roundsBound ca cb aa ab p q))
+        (parB ca cb aa ab p q (roundsBound ca cb aa ab p q) (roundsBound ca cb aa ab p q)) ni = some n' ∧
+      netM (parA ca cb aa ab p q (roundsBound ca cb aa ab p q) (roundsBound ca cb aa ab p q))
+        (parB ca cb aa ab p q (roundsBound ca cb aa ab p q) (roundsBound ca cb aa ab p q)) n' ≤
+      netM (parA ca cb aa ab p q (roundsBound ca cb aa ab p q) (roundsBound ca cb aa ab p q))
+        (parB ca cb aa ab p q (roundsBound ca cb aa ab p q) (roundsBound ca cb aa ab p q)) ni ∧
+      (ni.final = false →
+        netM (parA ca cb aa ab p q (roundsBound ca cb aa ab p q) (roundsBound ca cb aa ab p q))
+          (parB ca cb aa ab p q (roundsBound ca cb aa ab p q) (roundsBound ca cb aa ab p q)) n' <
+        netM (parA ca cb aa ab p q (roundsBound ca cb aa ab p q) (roundsBound ca cb aa ab p q))
+          (parB ca cb aa ab p q (roundsBound ca cb aa ab p q) (roundsBound ca cb aa ab p q)) ni) := by
+  let K := roundsBound ca cb aa ab p q
+  let SA : Side := { c := ca, a := aa, c' := cb, a' := ab, id := idA, p := p, p' := q, dt := dt, kCf := K, kFc := K }
+  have hA : SideOk SA :=
+    ⟨hD.va, hD.vb, hD.listenA, hD.rlA, hD.wfA, hD.wfB, hD.mirBA, hD.stminB, hD.p1, hD.p32, hD.q1, hD.q32, hD.qmax,
+     hD.sepAB, hD.kFcA1, hD.kCfA1, hD.tFcA, hD.tCfA⟩
+  have hB : SideOk (sideB SA idB K K) :=
+    ⟨hD.vb, hD.va, hD.listenB, hD.rlB, hD.wfB, hD.wfA, hD.mirAB, hD.stminA, hD.q1, hD.q32, hD.p1, hD.p32, hD.pmax,
+     hD.sepBA, hD.kFcB1, hD.kCfB1, hD.tFcB, hD.tCfB⟩
+  obtain ⟨ni, n', e1, e2, hle, hlt⟩ := abs_progress (parOk ca cb aa ab p q K K K K hD.va hD.vb) (Nat.le_refl _)
+    (Nat.le_refl _) (Nat.le_refl _) (Nat.le_refl _) i
+  obtain ⟨hl, -⟩ := rounds_sim hA hB i {} ni _ (netRep_init SA idB K K hA hB) e1
+  exact ⟨_, _, _, _, _, ni, n', startNet2_eq ca cb aa ab idA p idB q haccA haccB, canonRounds_toNet dt i _, rfl, e1, hl,
+    e2, hle, hlt⟩
+
+/-! ## the objects of the statement, spelled out -/
+
+/-- the network after the two `send` calls is literally two `Net.onLayer` operations on the freshly built network -/
+theorem startNet2_def (ca cb : Cfg) (aa ab : Addr) (idA : Nat) (p : Bytes) (idB : Nat) (q : Bytes) :
+    startNet2 ca cb aa ab idA p idB q =
+      ((net0 ca cb aa ab).onLayer 0 (sendOp idA p)).bind fun r1 =>
+      (r1.1.onLayer 1 (sendOp idB q)).bind fun r2 => some (r2.1, r1.2.2.2, r2.2.2.2) := by
+  unfold startNet2
+  cases (net0 ca cb aa ab).onLayer 0 (sendOp idA p) with
+  | none => rfl
+  | some r1 =>
+    obtain ⟨d1, s1, e1, x1⟩ := r1
+    simp only [Option.bind_some]
+    cases d1.onLayer 1 (sendOp idB q) with
+    | none => rfl
+    | some r2 => rfl
+
+/-- the number of rounds of `duplex_completes_partial`, spelled out -/
+theorem roundsBound_eq (ca cb : Cfg) (aa ab : Addr) (p q : Bytes) :
+    roundsBound ca cb aa ab p q =
+      4 * ((segment (TxCfg.of ca aa) p).length + (segment (TxCfg.of cb ab) q).length) + 2 := rfl
+
+/-! ## concrete instances (non-vacuity): classic CAN, normal 11-bit addressing; A sends 20 bytes (3 frames), B sends
+    50 bytes (8 frames) -/
+
+def exHalfA : Half := { mode := .n11, txid := some 0x123, rxid := some 0x456, ta := none, sa := none, ae := none,
+                        physId := 0, funcId := 0, rxOnly := false, txOnly := false }
+def exHalfB : Half := { mode := .n11, txid := some 0x456, rxid := some 0x123, ta := none, sa := none, ae := none,
+                        physId := 0, funcId := 0, rxOnly := false, txOnly := false }
+def exAddrA : Addr := { tx := exHalfA, rx := exHalfA }
+def exAddrB : Addr := { tx := exHalfB, rx := exHalfB }
+/-- A's payload: 20 bytes = First Frame + 2 Consecutive Frames -/
+def exP : Bytes := (List.range 20).map UInt8.ofNat
+/-- B's payload: 50 bytes = First Frame + 7 Consecutive Frames -/
+def exQ : Bytes := (List.range 50).map UInt8.ofNat
+
+example : (segment (TxCfg.of {} exAddrB) exQ).length = 8 ∧ (segment (TxCfg.of {} exAddrA) exP).length = 3 := by decide
+
+/-- A with the given blocksize / STmin byte / N_Cr / N_Bs timeouts (ns), everything else default -/
+def exC (bs st tCf tFc : Nat) : Cfg := { blocksize := bs, stmin := st, tCf := tCf, tFc := tFc }
+
+/-- the hypotheses are satisfiable: blocksizes 2 / 3, STmin 1 ms on both sides, tick 1 ms + 1 ns, default timeouts
+    (1 s): they cover the 46 ticks of `roundsBound` -/
+theorem exDuplex_2_3 : Duplex (exC 2 1 1000000000 1000000000) (exC 3 1 1000000000 1000000000) exAddrA exAddrB exP exQ
+    1000001 46 46 46 46 :=
+  ⟨by decide, by decide, by decide, by decide, by decide, by decide, by decide, by decide, by decide, by decide,
+   by decide, by decide, by decide, by decide, by decide, by decide, by decide, by decide, by decide, by decide,
+   by decide, by decide, by decide, by decide, by decide, by decide, by decide, by decide⟩
+
+example : roundsBound (exC 2 1 1000000000 1000000000) (exC 3 1 1000000000 1000000000) exAddrA exAddrB exP exQ = 46 := by
+  decide
+
+/-- … blocksize 0, STmin 0 on both sides, tick 1 ns, timeouts exactly 3 resp. 2 ticks -/
+theorem exDuplex_sharp : Duplex (exC 0 0 3 2) (exC 0 0 3 2) exAddrA exAddrB exP [1, 2, 3, 4, 5, 6, 7, 8, 9] 1 3 2 3 2 :=
+  ⟨by decide, by decide, by decide, by decide, by decide, by decide, by decide, by decide, by decide, by decide,
+   by decide, by decide, by decide, by decide, by decide, by decide, by decide, by decide, by decide, by decide,
+   by decide, by decide, by decide, by decide, by decide, by decide, by decide, by decide⟩
+
+/-- instances of the theorems -/
+example : CompletesIn (exC 2 1 1000000000 1000000000) (exC 3 1 1000000000 1000000000) exAddrA exAddrB 1 exP 2 exQ
+    1000001 46 :=
+  duplex_completes_partial _ _ _ _ 1 2 _ _ _ exDuplex_2_3 (by decide) (by decide) 46 (by decide)
+
+example : CompletesIn (exC 0 0 3 2) (exC 0 0 3 2) exAddrA exAddrB 1 exP 2 [1, 2, 3, 4, 5, 6, 7, 8, 9] 1 12 :=
+  duplex_completes_small _ _ _ _ 1 2 _ _ _ exDuplex_sharp (by decide) (by decide) (by decide) (by decide) (by decide)
+    (by decide) 12 (by decide)
+
+/-! ### the same kind of scenario, evaluated: what the network looks like after `N` rounds -/
+
+def errsOf (evs : List Ev) : List Err := evs.filterMap fun e => match e with | .err _ x => some x | _ => none
+
+/-- what is looked at after the two `send` calls and `N` rounds -/
+structure Summary where
+  rxQueues : List (List Bytes)     -- of A, of B
+  txStates : List TxSt
+  rxStates : List RxSt
+  inboxes  : List Nat              -- frames still in the inboxes
+  now      : Nat
+  doneA    : Bool                  -- `complete(True)` seen by A's / B's request
+  doneB    : Bool
+  errsA    : List Err              -- errors reported to A's / B's error handler
+  errsB    : List Err
+  deriving DecidableEq, Repr
+
+def runEx (ca cb : Cfg) (p q : Bytes) (dt N : Nat) : Option Summary :=
+  (startNet2 ca cb exAddrA exAddrB 1 p 2 q).bind fun d0 =>
+    (canonRounds dt N d0.1).map fun r =>
+      { rxQueues := r.1.layers.toList.map (·.rxQueue), txStates := r.1.layers.toList.map (·.txState),
+        rxStates := r.1.layers.toList.map (·.rxState), inboxes := r.1.layers.toList.map (·.inbox.length),
+        now := r.1.now, doneA := decide (Ev.done 1 true ∈ r.2.1), doneB := decide (Ev.done 2 true ∈ r.2.2),
+        errsA := errsOf r.2.1, errsB := errsOf r.2.2 }
+
+def big : Nat := 1000000000
+
+/-- the final picture: A has `[q]`, B has `[p]`, everything idle, both requests completed, no error -/
+def okAt (p q : Bytes) (now : Nat) : Option Summary :=
+  some ⟨[[q], [p]], [.idle, .idle], [.idle, .idle], [0, 0], now, true, true, [], []⟩
+
+-- blocksize 0 / 0, STmin 0: three rounds (First Frames; Flow Controls and all Consecutive Frames; the Consecutive
+-- Frames left behind the Flow Control); after two rounds 7 + 2 frames are still in the inboxes
+example : runEx (exC 0 0 big big) (exC 0 0 big big) exP exQ 1 3 = okAt exP exQ 3 := by decide +kernel
+example : runEx (exC 0 0 big big) (exC 0 0 big big) exP exQ 1 2 =
+    some ⟨[[], []], [.idle, .idle], [.waitCf, .waitCf], [7, 2], 2, true, true, [], []⟩ := by decide +kernel
+-- blocksize 2 / 3, STmin 0: six rounds
+example : runEx (exC 2 0 big big) (exC 3 0 big big) exP exQ 1 6 = okAt exP exQ 6 := by decide +kernel
+example : runEx (exC 2 0 big big) (exC 3 0 big big) exP exQ 1 5 =
+    some ⟨[[], [exP]], [.idle, .idle], [.waitCf, .idle], [1, 0], 5, true, true, [], []⟩ := by decide +kernel
+-- blocksize 2 / 3, STmin 1 ms on both sides, tick 1 ms + 1 ns: thirteen rounds
+example : runEx (exC 2 1 big big) (exC 3 1 big big) exP exQ 1000001 13 = okAt exP exQ 13000013 := by decide +kernel
+example : runEx (exC 2 1 big big) (exC 3 1 big big) exP exQ 1000001 12 =
+    some ⟨[[], [exP]], [.idle, .idle], [.waitCf, .idle], [1, 0], 12000012, true, true, [], []⟩ := by decide +kernel
+-- blocksize 0 / 0, STmin 1 ms: ten rounds
+example : runEx (exC 0 1 big big) (exC 0 1 big big) exP exQ 1000001 10 = okAt exP exQ 10000010 := by decide +kernel
+-- timeouts of exactly 3 resp. 2 ticks are enough here (and in all runs we tried)
+example : runEx (exC 2 1 3000003 2000002) (exC 3 1 3000003 2000002) exP exQ 1000001 13 = okAt exP exQ 13000013 := by
+  decide +kernel
+
+/-! ### FINDING: the one-directional timing conditions are not sufficient in duplex -/
+
+/-- Both directions separately satisfy the hypotheses of C01live (`Scenario`: blocksize 0, STmin 0, tick 1 ns,
+    N_Bs = N_Cr = 1 ns = one tick) … -/
+theorem one_directional_hypotheses_hold :
+    Scenario (exC 0 0 1 1) (exC 0 0 1 1) exAddrA exAddrB exP 1 ∧ Scenario (exC 0 0 1 1) (exC 0 0 1 1) exAddrB exAddrA exQ 1 :=
+  ⟨⟨by decide, by decide, by decide, by decide, by decide, by decide, by decide, by decide, by decide, by decide,
+    by decide, by decide, by decide⟩,
+   ⟨by decide, by decide, by decide, by decide, by decide, by decide, by decide, by decide, by decide, by decide,
+    by decide, by decide, by decide⟩⟩
+
+/-- … but when both send at the same time B's N_Cr timer fires: B reports ConsecutiveFrameTimeoutError (and then
+    UnexpectedConsecutiveFrame for the frames that follow), A's payload is never delivered — although A's request is
+    completed with success. (B leaves `process()` right after the transmit pass that follows A's Flow Control; A's
+    Consecutive Frames, which are behind that Flow Control in B's inbox, are read one round = one tick later.) -/
+theorem one_directional_timing_not_enough :
+    runEx (exC 0 0 1 1) (exC 0 0 1 1) exP exQ 1 4 =
+      some ⟨[[exQ], []], [.idle, .idle], [.idle, .idle], [0, 0], 4, true, true, [],
+            [.ConsecutiveFrameTimeout, .UnexpectedConsecutiveFrame, .UnexpectedConsecutiveFrame]⟩ := by decide +kernel
+
+/-- with N_Cr(B) = two ticks the same exchange completes (A needs only one tick: it runs first in the round) -/
+theorem two_ticks_enough_here : runEx (exC 0 0 1 1) (exC 0 0 2 1) exP exQ 1 3 = okAt exP exQ 3 := by decide +kernel
+
+/-- N_Cr has to cover THREE ticks in general: A announces STmin = 1 ms (so B lets a round pass after A's Flow
+    Control), B announces blocksize 1 (so each of A's frames needs a Flow Control, which sits in front of B's next
+    Consecutive Frame in A's inbox): with `tCf(A)` = 2 ticks A reports ConsecutiveFrameTimeoutError, with 3 ticks the
+    exchange completes. -/
+theorem needs_three_ticks :
+    runEx (exC 0 1 2000002 big) (exC 1 0 big big) exP exQ 1000001 12 =
+      some ⟨[[], [exP]], [.idle, .idle], [.idle, .idle], [0, 0], 12000012, true, true,
+            [.ConsecutiveFrameTimeout, .UnexpectedConsecutiveFrame, .UnexpectedConsecutiveFrame,
+             .UnexpectedConsecutiveFrame, .UnexpectedConsecutiveFrame, .UnexpectedConsecutiveFrame,
+             .UnexpectedConsecutiveFrame, .UnexpectedConsecutiveFrame], []⟩ ∧
+    runEx (exC 0 1 3000003 big) (exC 1 0 big big) exP exQ 1000001 12 = okAt exP exQ 12000012 := by
+  constructor <;> decide +kernel
+
+/-- N_Bs has to cover TWO ticks in general: with `tFc(A)` = 1 tick A reports FlowControlTimeoutError (its request
+    fails, B is left waiting), with 2 ticks the exchange completes. -/
+theorem needs_two_ticks_fc :
+    runEx (exC 0 0 big 1) (exC 1 0 big big) exP exQ 1 6 =
+      some ⟨[[exQ], []], [.idle, .idle], [.idle, .waitCf], [0, 0], 6, false, true, [.FlowControlTimeout], []⟩ ∧
+    runEx (exC 0 0 big 2) (exC 1 0 big big) exP exQ 1 6 = okAt exP exQ 6 := by
+  constructor <;> decide +kernel
+
 end Isotp.C10live
 
 #print axioms Isotp.C10live.duplex_of_abstract
 #print axioms Isotp.C10live.duplex_of_links
+#print axioms Isotp.C10live.duplex_completes_partial
+#print axioms Isotp.C10live.duplex_completes_small
+#print axioms Isotp.C10live.progress_each_round
+#print axioms Isotp.C10live.duplex_completes_bs0
+#print axioms Isotp.C10live.bs0_not_before
+#print axioms Isotp.C10live.startNet2_def
+#print axioms Isotp.C10live.one_directional_hypotheses_hold
+#print axioms Isotp.C10live.one_directional_timing_not_enough
+#print axioms Isotp.C10live.two_ticks_enough_here
+#print axioms Isotp.C10live.needs_three_ticks
+#print axioms Isotp.C10live.needs_two_ticks_fc
